@@ -59,6 +59,7 @@ class Ctx:
         self.drift = []
         self.distinct = set()
         self.thorough = tier == "thorough"
+        self.partial = None   # a driver died/hung after recording part of its trace: judged on what it recorded, else BROKEN
 
     # ------------------------------------------------------------------ TLC
     def _specdir(self, name):
@@ -211,12 +212,20 @@ class Ctx:
         t = time.time()
         try:
             p = subprocess.run(cmd, cwd=os.path.join(REPO, mod), env=env, stdout=subprocess.PIPE, stderr=subprocess.STDOUT, timeout=timeout + 60, text=True, errors="replace")
-        except subprocess.TimeoutExpired:
-            raise Broken("go test timeout: %s %s" % (pkg, run))
+        except subprocess.TimeoutExpired as te:
+            # the driver hung (a mutated tree can do that: e.g. a goroutine waiting for one of hysteria's mutexes is not
+            # durably blocked, so the bubble's clock stops).  What was recorded before is still a real execution.
+            self.partial = "go test timeout: %s %s" % (pkg, run)
+            log("  go test %s %s TIMED OUT; judging the executions recorded before the hang" % (pkg, run))
+            return ""
         dt = time.time() - t
         logf = os.path.join(self.out, "go-%s-%s.log" % (mod, re.sub(r"\W+", "_", run)))
         open(logf, "w").write(p.stdout)
         ran = re.findall(r"^--- (PASS|FAIL): (\S+)", p.stdout, re.M)
+        if (p.returncode != 0 or not ran) and glob.glob(os.path.join(self.out, "trace-*.ndjson")) and "panic: test timed out" in p.stdout:
+            self.partial = "driver timed out inside go test: %s %s (log %s)" % (pkg, run, logf)
+            log("  go test %s %s TIMED OUT; judging the executions recorded before the hang" % (pkg, run))
+            return p.stdout
         if p.returncode != 0 or not ran:
             tail = "\n".join(p.stdout.splitlines()[-25:])
             raise Broken("harness did not run cleanly (%s %s, rc=%d); a driver failure is not a verdict. log: %s\n%s" % (pkg, run, p.returncode, logf, tail))
@@ -349,6 +358,9 @@ class Ctx:
         os.makedirs(evdir, exist_ok=True)
         if not self.replay and not os.environ.get("VERIF_SKIP_MC"):    # a run without its model step is not evidence
             json.dump(ev, open(os.path.join(evdir, self.pid + ".json"), "w"), indent=1)
+        if rc == 0 and self.partial:
+            log("BROKEN property=%s %s - and the executions recorded before that satisfy the property" % (self.pid, self.partial))
+            return 2
         if rc == 0 and os.environ.get("VERIF_KEEP"):
             log("OK property=%s (traces kept in %s)" % (self.pid, self.out))
         elif rc == 0:
